@@ -471,7 +471,7 @@ pub fn mutate_trace(case: &Case, trace: &mut ExecutionTrace, rng: &mut Rng8, rep
 
 pub fn run(cfg: &Cfg) -> Report {
     let shards = 64;
-    let per = cfg.n(5, 60);
+    let per = cfg.n(40, 600);
     let reports = par_map(shards, |sh| {
         let mut rng = rng_for(cfg.seed, "C04", sh as u64);
         let mut rep = Report::new();
